@@ -24,7 +24,7 @@ class Deadlock(Exception):
 class Sched(object):
     def __init__(self, prefix, opcode=False, max_steps=20000, rng=None, pswitch=0.01):
         self.rng = rng
-        self.stall_timeout = 30
+        self.stall_timeout = 90
         self.pswitch = pswitch
         self.prefix = list(prefix)
         self.opcode = opcode
